@@ -39,6 +39,9 @@ type ReqSpec struct {
 	Accept   []string  `json:"accept"`    // Accept header lines (nil = header absent)
 	Body     string    `json:"body"`
 	Label    BodyLabel `json:"label"`
+	// Headers: further request headers (name, value), e.g. Content-Type. They are NOT part of the abstract
+	// request: the property makes the answer a function of method, path, query, Accept and body only.
+	Headers [][2]string `json:"headers,omitempty"`
 	// Inject, when non-nil, is a list of error Status texts that replaces the router's answer (verif
 	// hook, inject_hook.go): the request then only exercises the response-writing half of ServeHTTP.
 	Inject *[]string `json:"inject,omitempty"`
@@ -154,6 +157,10 @@ func serve(schema *jsonapi.Schema, q *ReqSpec) (out Real) {
 	for _, a := range q.Accept {
 		req.Header.Add("Accept", a)
 	}
+	for _, hv := range q.Headers {
+		req.Header.Add(hv[0], hv[1])
+	}
+	req.ContentLength = int64(len(q.Body))
 	if q.Inject != nil {
 		req = withInjection(req, *q.Inject)
 	}
